@@ -86,6 +86,7 @@ def exec_commands(run, exe, cmds, name, per_cmd_timeout=30, env=None):
     skip = 0
     total = len(cmds)
     restarts = 0
+    ntimeouts = 0
     e = dict(os.environ)
     if env:
         e.update(env)
@@ -128,7 +129,14 @@ def exec_commands(run, exe, cmds, name, per_cmd_timeout=30, env=None):
             f.write(b'\n'.join(good) + b'\n')
         skip = last_idx + 1
         restarts += 1
+        if good and json.loads(good[-1]).get('e') == 'Timeout':
+            ntimeouts += 1
         if skip >= total or restarts > 200:
+            break
+        if ntimeouts >= 6:
+            # a change that breaks progress: the Timeout events already decide the run (they are violations);
+            # running the remaining commands at 30 s apiece would only delay the verdict
+            run.note('executor %s: %d commands timed out; remaining %d commands not run' % (name, ntimeouts, total - skip))
             break
     run.commands += total
     return tpath
@@ -177,6 +185,27 @@ def tlc_model_check(run, module, cfg, workers=8, timeout=600, extra=(), env=None
                        "distinct_states": dist, "wall_s": round(time.time() - t0, 1)})
     run.note('TLC %s/%s: %d generated, %d distinct (%.1fs)' % (module, cfg, gen, dist, time.time() - t0))
     return {"generated": gen, "distinct": dist, "out": out}
+
+
+def apalache_inductive(run, module, cinit, init, indinit, indinv, safety, timeout=600):
+    """Apalache (symbolic): Init => IndInv, IndInv /\\ Next => IndInv', IndInv => Safety for spec/<module>.tla.
+    A counterexample means the specification is incoherent (machinery error), as for TLC."""
+    steps = [("initiation", init, indinv, 0), ("consecution", indinit, indinv, 1), ("sufficiency", indinit, safety, 0)]
+    t0 = time.time()
+    for name, ini, inv, length in steps:
+        outdir = os.path.join(run.work, 'apa-%s-%s' % (module, name))
+        cmd = ['apalache-mc', 'check', '--cinit=' + cinit, '--init=' + ini, '--inv=' + inv, '--length=%d' % length,
+               '--out-dir=' + outdir, '--run-dir=' + outdir, os.path.join(SPEC, module + '.tla')]
+        try:
+            r = subprocess.run(cmd, cwd=run.work, capture_output=True, text=True, timeout=timeout)
+        except subprocess.TimeoutExpired:
+            raise MachineryError('Apalache timed out on %s (%s)' % (module, name))
+        shutil.rmtree(outdir, ignore_errors=True)
+        if r.returncode != 0 or 'The outcome is: NoError' not in r.stdout:
+            raise MachineryError('Apalache %s of %s failed (rc=%d):\n%s' % (name, module, r.returncode, r.stdout[-2000:]))
+    run.phases.append({"phase": "inductive-proof", "tool": "apalache", "module": module, "invariant": indinv, "implies": safety,
+                       "constants": cinit, "wall_s": round(time.time() - t0, 1)})
+    run.note('Apalache %s: %s inductive under %s and implies %s (%.1fs)' % (module, indinv, cinit, safety, time.time() - t0))
 
 
 def tlc_generate(run, module, consts, invariant='Emit', timeout=600, label='gen', extra_cfg='', workers=1):
